@@ -112,7 +112,8 @@ class JSONValidator:
             if depth > self.max_depth:
                 return False, f"JSON depth exceeds limit ({depth} > {self.max_depth})"
             return True, None
-        except json.JSONDecodeError as e:
+        except (ValueError, RecursionError) as e:
+            # JSONDecodeError, but also over-long integers (ValueError) and nesting that overflows the parser
             return False, f"Invalid JSON: {e}"
 
     def _measure_depth(self, obj, current: int = 0) -> int:
